@@ -158,7 +158,7 @@ def proof_half(prop, tier):
     untr = [u.split(" (")[0] for u in info["translator"].get("untranslatable", [])]
     # safety net for defects of the translator itself: a generated file that does not even compile says nothing about the
     # code; the bridge modules over it are skipped like untranslatable ones and the fact is recorded
-    gen_groups = {"QhttpGen.Sock": "QhttpBridge.Sock.", "QhttpGen.Proxy": "QhttpBridge.Proxy.", "QhttpGen.Fs": "QhttpBridge.Fs.", "QhttpGen.Auth": ("QhttpBridge.Auth", "QhttpBridge.LocalAuth"), "QhttpGen.Slot": "QhttpBridge.Slot", "QhttpGen.Srv": "QhttpBridge.Srv", "QhttpGen.Ph": "QhttpBridge.Ph",
+    gen_groups = {"QhttpGen.Sock": "QhttpBridge.Sock.", "QhttpGen.Proxy": "QhttpBridge.Proxy.", "QhttpGen.Fs": "QhttpBridge.Fs.", "QhttpGen.Auth": ("QhttpBridge.Auth", "QhttpBridge.LocalAuth"), "QhttpGen.Slot": "QhttpBridge.Slot", "QhttpGen.Srv": "QhttpBridge.Srv", "QhttpGen.Ph": "QhttpBridge.Ph", "QhttpGen.Route": "QhttpBridge.Route",
                   "QhttpGen.Range": "QhttpBridge.Range.", "QhttpGen.Parser": "QhttpBridge.Parser", "QhttpGen.Ack": "QhttpBridge.Ack",
                   "QhttpGen.Copier": "QhttpBridge.Copier", "QhttpGen.Tables": "QhttpBridge.Tables"}
     wanted = props.BRIDGES.get(prop, [])
